@@ -186,7 +186,7 @@ package rapid
 //@   ensures [runtime-started-only-after-extensions-registered] delta(InitExtensions) >= 1 && delta(ExecRuntime) >= 1 ==> delta(InitExtensionsOK) == 1 && last(InitExtensionsOK) < first(ExecRuntime)
 //@   ensures [at-most-one-runtime] delta(ExecRuntime) <= 1 && delta(InitExtensions) <= 1
 //@   ensures [completion-order] r0 == nil ==> execCtx.initDone && delta(ExecRuntime) == 1 && delta(AwaitRestoreReadyOK) == 1 && delta(RegistrationTurnOff) == 1 && first(ExecRuntime) < first(AwaitRestoreReady) && last(AwaitRestoreReadyOK) < first(RegistrationTurnOff)
-//@   ensures [ready-count-is-registered-count] r0 == nil && delta(SetInitAgentsCount) >= 1 ==> delta(SetInitAgentsCount) == 1 && delta(RegisteredSize) == 1 && lastarg(SetInitAgentsCount, 1) == lastret(RegisteredSize) && first(RegistrationTurnOff) < first(SetInitAgentsCount) && delta(AwaitInitAgentsReadyOK) == 1 && first(SetInitAgentsCount) < first(AwaitInitAgentsReady)
+//@   ensures [ready-count-is-registered-count] r0 == nil && delta(SetInitAgentsCount) >= 1 ==> delta(SetInitAgentsCount) == 1 && delta(RegisteredSize) == 1 && lastarg(SetInitAgentsCount, 1) == lastret(RegisteredSize) && first(RegistrationTurnOff) < first(RegisteredSize) && first(RegistrationTurnOff) < first(SetInitAgentsCount) && delta(AwaitInitAgentsReadyOK) == 1 && first(SetInitAgentsCount) < first(AwaitInitAgentsReady)
 //@   ensures [tagged-with-phase] delta(EvInitStartTaggedInit) == isInit(phase) && delta(EvInitStartTaggedInvoke) == isInvoke(phase) && delta(EvInitReportTaggedInit) == isInit(phase) && delta(EvInitReportTaggedInvoke) == isInvoke(phase) && delta(EvInitRuntimeDoneTaggedInit) == isInit(phase) * delta(EvInitRuntimeDone) && delta(EvInitRuntimeDoneTaggedInvoke) == isInvoke(phase) * delta(EvInitRuntimeDone)
 //@   ensures [error-status-has-a-type] delta(EvInitRuntimeDone) == 1 ==> (lastarg(EvInitRuntimeDone, 1).ErrorType == nil <==> delta(EvInitRuntimeDoneSuccess) == 1)
 //@   ensures [extension-lines-on-every-path] (lastret(ExtensionsEnabledCheck) ==> delta(AgentsInfoRead) == 1 && delta(EvExtensionInit) == len(lastret(AgentsInfoRead))) && (!lastret(ExtensionsEnabledCheck) ==> delta(EvExtensionInit) == 0)
@@ -471,6 +471,9 @@ package rapid
 // is what a reset waits for; the cancellation that belongs to an exit is applied before the exit is announced, so that it cannot
 // land in the generation the reset has meanwhile set up
 //@   loop for event := range events: invariant [an-exit-is-announced-only-after-its-cancellation-was-applied] delta(FlowsCancelled) >= 1 ==> last(FlowsCancelled) < last(TerminationHandled) && last(TerminationHandled) <= now()
+// C06 ("a JSON error naming the first fault"): the invocation woken by the cancellation builds its answer from the recorded first
+// fault at once; the fault is recorded before the cancellation is published, not after
+//@   loop for event := range events: invariant [the-fault-is-recorded-before-its-cancellation-is-published] delta(StoreFatalAny) >= 1 && delta(FlowsCancelled) >= 1 ==> last(StoreFatalAny) < last(FlowsCancelled)
 //@   loop for event := range events: invariant [earlier-generations-do-not-disturb] delta(StoreFatalAny) <= delta(ExitOfCurrentGeneration) && delta(FlowsCancelled) <= delta(ExitOfCurrentGeneration) && delta(GenerationChecked) == delta(ExitOfCurrentGeneration) + delta(ExitOfEarlierGeneration)
 
 // the failure message: error type = first recorded fatal error, else Sandbox.Failure
